@@ -116,6 +116,15 @@ func (env *Env) typeOf(s string) types.Type {
 	case "uint":
 		return types.Typ[types.Uint]
 	}
+	if strings.HasPrefix(s, "seq[") && strings.HasSuffix(s, "]") {
+		// seq[T]: a mathematical sequence (total function from int), the value of vals(slice)
+		if et := env.typeOf(s[4 : len(s)-1]); et != nil {
+			t := &ghostMapType{key: types.Typ[types.Int], elem: et}
+			typeCache[key] = t
+			return t
+		}
+		return nil
+	}
 	if env.pkg == nil {
 		return nil
 	}
@@ -841,6 +850,7 @@ func (env *Env) evalCall(e *SExpr) Val {
 	}
 	if sf := env.eng.specFunc(env.pkg, name); sf != nil {
 		sym, ptypes, rt := env.eng.defineSpecFunc(env, sf)
+		env.eng.assumeSpecLemmas(env, sf)
 		if len(ptypes) != len(e.Args) {
 			env.errf("wrong number of arguments to %s", name)
 			return intVal("0")
